@@ -54,6 +54,17 @@ func c07Routes() []c07Route {
 			mk("include-apply:"+f, "{% include 'inc' %}", map[string]string{"inc": "{% apply " + f + " %}{{ v }}{% endapply %}"}, "", ""),
 			mk("for:"+f, "{% for x in [v] %}{{ x|"+f+" }}{% endfor %}", nil, "", ""),
 			mk("set:"+f, "{% set y = v|"+f+" %}{{ y }}", nil, "", ""),
+			// the escaped value is itself built from filtered sub-expressions (a chain inside the operand or the
+			// arguments of the escaping chain)
+			mk("nested-concat:"+f, "{{ (v|raw|raw ~ ''|raw)|"+f+" }}", nil, "", ""),
+			mk("nested-arg:"+f, "<{{ nosuchvar|default(v|raw|raw)|"+f+" }}>", nil, "<", ">"),
+			mk("nested-ternary:"+f, "{{ (true ? v|raw|raw : 'x'|upper|lower)|"+f+"|raw }}", nil, "", ""),
+			mk("nested-array:"+f, "{{ [v|raw|raw, 'q'|upper|lower]|first|"+f+" }}", nil, "", ""),
+			mk("nested-both:"+f, "{{ ('a'|upper|lower ~ 'b'|upper|lower) ~ (v|raw|raw|"+f+") ~ ('c'|upper|lower|"+f+") }}", nil, "ab", "c"),
+			// the same apply block entered again while it is being rendered (recursive macro, self-including template)
+			mk("apply-reentrant-macro:"+f, "{% macro rec(x, n, y) %}{% apply "+f+" %}[{{ x }}{% if n > 0 %}{{ _self.rec('i', n - 1, 'j') }}{% endif %}{{ y }}]{% endapply %}{% endmacro %}{{ _self.rec(v, 1, 'z') }}", nil, "[", "[ij]z]"),
+			mk("apply-reentrant-include:"+f, "{% include 'inc' with {'x': v, 'n': 1, 'y': 'z'} %}",
+				map[string]string{"inc": "{% apply " + f + " %}[{{ x }}{% if n > 0 %}{% include 'inc' with {'x': 'i', 'n': 0, 'y': 'j'} %}{% endif %}{{ y }}]{% endapply %}"}, "[", "[ij]z]"),
 		)
 	}
 	return rs
@@ -419,7 +430,7 @@ func (e c07Err) Error() string { return string(e) }
 
 func runC07(e *Env) error {
 	r := e.Rep
-	r.Rule = "every input is rendered through 22 routes (print, filter chain, apply block, apply next to text, macro via _self / import / from, include, include+apply, for body, set; each with e and escape) " +
+	r.Rule = "every input is rendered through 36 routes (print, filter chain, apply block, apply next to text, macro via _self / import / from, include, include+apply, for body, set, filtered sub-expressions inside the operand or arguments of the escaping chain, an apply block re-entered through a recursive macro or a self-including template; each with e and escape) " +
 		"on a twig.New() engine and compared with Escape.escReg; inputs: all 256 single bytes and all 65 536 byte pairs (exhaustive), all triples over 24 (thorough: 40) selected bytes, regression strings, already-escaped text, random mixes of special characters, references, " +
 		"multi-byte and invalid UTF-8, 1 MiB strings, every Unicode scalar value (quick: 1 in 16 blocks of 4096 plus the boundaries; thorough: all 1 112 064), non-string values against html.EscapeString(toString(v)); " +
 		"the nil-environment fallback (two routes × two names) against Escape.escFallback on the same single bytes, pairs, code points and random strings. " +
